@@ -631,6 +631,12 @@ pub fn gen_cfg(prop: &str, seed: u64) -> RunCfg {
                     _ => {
                         // a composite right after: faults and hostile content meet recursion
                         let t = g.target_w(&world.m[0], &[(Tc::Dir, 70), (Tc::AbsentInDir, 30)]);
+                        if g.rng.pct(35) {
+                            if let Some(op) = walk_after(&mut g, &mut world) {
+                                ops.push(op);
+                                continue;
+                            }
+                        }
                         ops.push(match g.rng.below(3) {
                             0 => Op::WalkDir(P::new(&t)),
                             1 => Op::ReadDir(P::new(&t)),
